@@ -13,9 +13,9 @@ VERSION = '4.7'
 
 
 def program_info(training_file, encoding='utf-8', coverage=0.6, ngram=4, alphabet_size=100, prefixcount=False,
-                 multiword=False, rule_name='T'):
-    return {'name': 'PCFG Trainer', 'version': VERSION, 'author': 'x', 'contact': 'y', 'rule_name': rule_name,
-            'training_file': training_file, 'encoding': encoding, 'comments': '', 'save_sensitive': True,
+                 multiword=False, rule_name='T', save_sensitive=True):
+    return {'name': 'PCFG Trainer', 'version': VERSION, 'author': 'Matt Weir', 'contact': 'cweir@vt.edu', 'rule_name': rule_name,
+            'training_file': training_file, 'encoding': encoding, 'comments': '', 'save_sensitive': save_sensitive,
             'prefixcount': prefixcount, 'ngram': ngram, 'alphabet_size': alphabet_size, 'alphabet': '', 'smoothing': 0.01,
             'coverage': coverage, 'max_len': 21, 'multiword': multiword}
 
